@@ -198,7 +198,7 @@ class Gen(object):
         n = self.rng.choice([0, 1, 1, 2, 3, maxp])
         return dict(params=[self.gen_param(i, n) for i in range(n)],
                     ret=dict(type=self.gen_type(allow_void=True), transfer=self.rng.choice(['none', 'full', 'container']),
-                             nullable=self.rng.random() < 0.2, skip=self.rng.random() < 0.05),
+                             nullable=self.rng.random() < 0.2, skip=self.rng.random() < 0.05, attrs=self.gen_attrs()),
                     throws=self.rng.random() < 0.15)
 
     def gen_function(self, kind='function', prefix='f'):
@@ -409,9 +409,9 @@ def attr_elems(e):
 
 
 def callable_xml(c, instance=False):
-    out = ['<return-value%s>%s</return-value>' % (
+    out = ['<return-value%s>%s%s</return-value>' % (
         attrs_xml({'transfer-ownership': c['ret']['transfer'], 'nullable': b1(c['ret']['nullable']), 'skip': b1(c['ret']['skip'])}),
-        type_xml(c['ret']['type']))]
+        attr_elems(c['ret']), type_xml(c['ret']['type']))]
     if c['params'] or instance:
         out.append('<parameters>')
         if instance:
@@ -539,6 +539,7 @@ def exp_callable(c, d, out, method=False, throws=None):
     th = c['throws'] if throws is None else throws
     out.append('  ' * d + 'R transfer=%d null=%d skip=%d throws=%d method=%d type=%s'
                % (TRANSFER[r['transfer']], r['nullable'], r['skip'], th, method, type_str(r['type'])))
+    exp_attrs(r, d + 1, out)
     for p in c['params']:
         out.append('  ' * d + 'A %s dir=%d transfer=%d null=%d opt=%d calleralloc=%d skip=%d ret=0 scope=%d closure=%d destroy=%d type=%s'
                    % (p['name'], DIR[p['dir']], TRANSFER[p['transfer']], p['nullable'], p['optional'],
